@@ -9,6 +9,7 @@ import (
 	"net"
 	"net/http"
 	"net/http/httptest"
+	"net/url"
 	"strings"
 	"time"
 )
@@ -151,6 +152,13 @@ func ParseResponses(raw []byte, method string) ([]*http.Response, [][]byte, erro
 		out = append(out, resp)
 		bodies = append(bodies, b)
 	}
+}
+
+// ReuseURL is what a caller may do with ITS url.URL value once an administration call (UpsertServer, RemoveServer)
+// has returned: overwrite it for the next use (the loader pattern "one url.URL, set Host per backend"). The
+// library must have kept a copy.
+func ReuseURL(u *url.URL) {
+	*u = url.URL{Scheme: "ftp", User: url.User("reused"), Host: "reused.invalid:1", Path: "/reused-by-the-caller", RawQuery: "reused=1", Fragment: "reused"}
 }
 
 // BrokenWriter is a ResponseWriter whose connection to the client breaks after
